@@ -33,6 +33,8 @@ var jsScripts = []string{
 	"F16-foreign-pod-bound-by-name",
 	"F17-stale-job-cache-recreates-attempt",
 	"S-admission-error-then-kill",
+	"S-deleted-before-first-task",
+	"S-deleted-in-retry-backoff",
 }
 
 type jsCfg struct {
@@ -424,6 +426,9 @@ func runJobSync(ctx *RunCtx) *Result {
 			if script == "S-admission-error-then-kill" {
 				m = &mJob{Shape: "count", Count: 2, MaxAttempts: 2, Finalizer: true}
 			}
+			if script == "S-deleted-in-retry-backoff" {
+				m = &mJob{Shape: "none", MaxAttempts: 2, RetryDelay: 60, Finalizer: true}
+			}
 			m.init()
 			cfg = jsCfg{Pending: ip(900), Force: ip(900), TTL: ip(3600)}
 		}
@@ -490,6 +495,33 @@ func runJobSync(ctx *RunCtx) *Result {
 				do(jsOp{Kind: "sync"})
 				do(jsOp{Kind: "kill", T: im.api.now()})
 				do(jsOp{Kind: "clock", T: im.api.now() + 2})
+			case "S-deleted-before-first-task":
+				// the user deletes a started Job before the controller's first pass: nothing may be
+				// created for a Job that is being deleted, and the Job goes away without tasks
+				do(jsOp{Kind: "delete"})
+				settle()
+				do(jsOp{Kind: "sync"})
+				settle()
+				do(jsOp{Kind: "sync"})
+			case "S-deleted-in-retry-backoff":
+				// first attempt failed and its Pod is gone; the user deletes the Job during the
+				// back-off; after the delay no retry may be created for the deleting Job
+				settle()
+				do(jsOp{Kind: "sync"})
+				do(jsOp{Kind: "kubelet", Name: p0, Step: "schedule"})
+				do(jsOp{Kind: "kubelet", Name: p0, Step: "run"})
+				do(jsOp{Kind: "kubelet", Name: p0, Step: "fail"})
+				settle()
+				do(jsOp{Kind: "sync"})
+				do(jsOp{Kind: "kubelet", Name: p0, Step: "vanish"})
+				settle()
+				do(jsOp{Kind: "sync"})
+				do(jsOp{Kind: "delete"})
+				do(jsOp{Kind: "clock", T: im.api.now() + 120})
+				settle()
+				do(jsOp{Kind: "sync"})
+				settle()
+				do(jsOp{Kind: "sync"})
 			case "F16-foreign-pod-bound-by-name":
 				settle()
 				do(jsOp{Kind: "sync"})
